@@ -277,6 +277,13 @@ pub fn panic_sig(msg: &str) -> String {
     format!("panic@{file}::{norm}")
 }
 
+/// Panics that come from the sanitizer builds' address-space layout rather than from
+/// roto: cranelift-jit cannot encode a 32-bit relocation between JIT memory and a host
+/// function that is too far away. Cases that hit this are inconclusive.
+pub fn is_env_artifact(msg: &str) -> bool {
+    msg.contains("cranelift-jit") && msg.contains("compiled_blob.rs")
+}
+
 pub fn hash_str(s: &str) -> u64 {
     crate::rng::hash_str(s)
 }
